@@ -16,8 +16,7 @@ theorem DepthInv_seqM {cfg : Cfg} {r : Out × St} {k : St → Out × St} (h1 : D
   · exact h1
 
 theorem DepthInv_raise {cfg : Cfg} (ctx : Ctx) (k : Kind) {s : St} (h : DepthInv cfg s) :
-    DepthInv cfg (raise cfg ctx k s).2 := by
-  unfold raise; cases ctx <;> simp <;> (try split) <;> exact h
+    DepthInv cfg (raise cfg ctx k s).2 := h
 
 theorem DepthInv_tick {cfg : Cfg} (ctx : Ctx) {s : St} (h : DepthInv cfg s) : DepthInv cfg (tick cfg ctx s).2 := by
   unfold tick
@@ -125,6 +124,7 @@ theorem exec_DepthInv (cfg : Cfg) (fuel : Nat) (ctx : Ctx) (sh : Sh) (s : St) (h
       | zero => exact h
       | succ k => exact DepthInv_seqM (ih ctx _ s h) (fun s1 h1 => ih ctx _ s1 h1)
     | safe body =>
+      refine DepthInv_seqM (DepthInv_tick ctx h) (fun s h => ?_)
       simp only
       split
       · exact h
